@@ -480,7 +480,11 @@ def run_case(spec, env, split, want_trace=False):
             if len(L) == before:
                 res.fail = Fail("type", k, {"got": "nothing emitted", "want": short(want)})
                 break
-            d = diff(got, want, zero_ok=spec.zero_ok, squeeze=(mode == "last"))
+            try:
+                d = diff(got, want, zero_ok=spec.zero_ok, squeeze=(mode == "last"))
+            except Exception as e:   # noqa
+                # the emitted object cannot even be compared with the expected one (wrong kind of object altogether)
+                d = ("type", {"got": "%s (%s while comparing)" % (type(got).__name__, type(e).__name__), "want": short(want)})
             if d is not None:
                 res.fail = Fail(d[0], k, d[1], got=got)
                 break
@@ -500,6 +504,10 @@ def run_case(spec, env, split, want_trace=False):
 
 def _concat_check(spec, env, split, L):
     want = env.want(spec, 0, env.R)
+    odd = [x for x in L if x is not None and not isinstance(x, (pd.Series, pd.DataFrame))]
+    if odd:
+        # what was emitted is not a frame / series at all (e.g. a (state, result) tuple): a violation, not a harness problem
+        return Fail("type", len(split) - 1, {"got": "%s emitted" % type(odd[0]).__name__, "want": short(want)})
     parts = [x for x in L if x is not None and len(x)]
     if parts:
         got = pd.concat(parts)
@@ -739,7 +747,13 @@ def run_item(item):
             env = Env(fam, table, grid, incs)
             for split in sp:
                 want_trace = out["sample"] is None and chunk_id == 0 and len(split) >= 2 and is_nontrivial(env, split, rows)
-                r = run_case(spec, env, split, want_trace=want_trace)
+                try:
+                    r = run_case(spec, env, split, want_trace=want_trace)
+                except Exception as e:   # noqa
+                    # the library produced something the comparison code cannot digest (never happens on the unchanged tree):
+                    # reported as a violation with the exception as its detail, like engine S does
+                    r = CaseResult()
+                    r.fail = Fail("unexpected-behaviour", 0, {"while": "running / comparing the case", "error": "%s: %s" % (type(e).__name__, str(e)[:160])})
                 out["runs"] += 1
                 out["cases"] += 1
                 out["transitions"] += r.transitions
@@ -1036,7 +1050,11 @@ def run_resume_item(item):
         for incs in time_patterns(grid, R):
             env = Env(fam, table, grid, incs)
             for split in splits(R, E):
-                fail, runs, trans, st, nexc = run_resume_case(spec, env, split)
+                try:
+                    fail, runs, trans, st, nexc = run_resume_case(spec, env, split)
+                except Exception as e:   # noqa
+                    fail, runs, trans, st, nexc = (Fail("unexpected-behaviour", 0, {"while": "running / comparing the case",
+                                                                                   "error": "%s: %s" % (type(e).__name__, str(e)[:160])}), 1, 0, [], 0)
                 out["runs"] += runs
                 out["cases"] += 1
                 out["transitions"] += trans
